@@ -45,7 +45,9 @@ func runLockRace(line string) *result {
 
 			return r
 		}
-		pool.Start()
+		if !guarded(r, pool, "start", func() { pool.Start() }) {
+			return r
+		}
 		var stop atomic.Bool
 		var subs sync.WaitGroup
 		for s := 0; s < 3; s++ {
@@ -101,7 +103,8 @@ func runLockRace(line string) *result {
 
 				continue
 			}
-			if idle := time.Since(lastAt); idle > bound || (idle > 10*time.Second && !poolStateOf(pool).readable) {
+			if idle := time.Since(lastAt); idle > eff(bound) || (idle > min(10*time.Second, eff(bound)) && !poolStateOf(pool).readable) {
+				hangs.expired(bound)
 				stuck = true
 
 				break
@@ -116,7 +119,9 @@ func runLockRace(line string) *result {
 		if !within(bound, subs.Wait) {
 			return bad("termination", "Submit/IsRunning callers did not return", classifyPool(pool, "submit"))
 		}
-		pool.Shutdown()
+		if !guarded(r, pool, "shutdown", func() { pool.Shutdown() }) {
+			return r
+		}
 		t0 := time.Now()
 		if !withinPool(pool, func() time.Duration { return time.Since(t0) }, bound, pool.ShutdownComplete.Wait) {
 			return bad("termination", "ShutdownComplete.Wait did not return", classifyPool(pool, "complete"))
